@@ -1756,9 +1756,11 @@ def subset_to_blocks(
 
     # the reindexer carries the cohort's labels: block sets of different cohorts can normalize to the same index
     name = "groupby-cohort-" + tokenize(array, index, reindexer)
-    new_keys = array._key_array[index]
-
     squeezed = tuple(np.squeeze(i) if isinstance(i, np.ndarray) else i for i in index)
+    # one explicit position list per axis: numpy moves advanced indices that are separated by a slice to the front
+    positions = tuple(np.atleast_1d(np.arange(n)[i]) for n, i in zip(array.numblocks, squeezed))
+    new_keys = array._key_array[np.ix_(*positions)]
+
     chunks = tuple(tuple(c[i].tolist()) for c, i in zip(chunks_as_array, squeezed))
 
     keys = itertools.product(*(range(len(c)) for c in chunks))
